@@ -203,6 +203,16 @@ func (o *oracleC04) after(c *stepCtx) *ViolationRec {
 			return fail("wrong-special-result", "result is %s, IEEE-754 gives %s", post.Value(), Obs{Form: ex.res.form, Neg: ex.res.neg}.Value())
 		}
 	}
+	// exact cancellation decided from the operands, not from the reported accuracy
+	if ex.zeroSumChecked && (op.Name == "Add" || op.Name == "Sub") {
+		a, b := c.pre[op.A[0]], c.pre[op.A[1]]
+		if a.Digits == b.Digits && a.Exp == b.Exp {
+			o.cnt["constructed_exact_cancellations"]++
+			if post.Form != 0 || post.Neg != ex.zeroNeg {
+				return fail("wrong-zero-sum-sign", "x + (-x) must be an exact zero with sign bit %v under mode %d, got %s", ex.zeroNeg, mode, post.Value())
+			}
+		}
+	}
 	if ex.zeroSumChecked && post.Form == 0 && post.Acc == decimal.Exact {
 		o.cnt["exact_zero_sums_checked"]++
 		if post.Neg != ex.zeroNeg {
